@@ -418,6 +418,13 @@ class Engine:
             self._ctx_class = type("UserContext", (Context,), ns) if ns else Context
         return self._ctx_class
 
+    def raised_and_dispatched(self, observed: Any, cmd: Any) -> None:
+        """a call that raises - whatever the model thinks it should have done - must not have announced anything"""
+        from asphalt.core import ResourceEvent
+
+        if observed[0] == "exc" and any(isinstance(ev, ResourceEvent) for _, ev in self.dispatches):
+            self.bad("failed-call-dispatched-event", f"{cmd}: the call raised {describe_exc(observed[1])} although it had already dispatched a ResourceEvent")
+
     def check_kept_events(self) -> None:
         """what a listener received stays what it was: every dispatch delivers an event object of its own, and an event keeps
         its source and fields however many publications follow in this or other contexts"""
@@ -631,6 +638,7 @@ class Engine:
                 ctx.add_resource(value, cmd["name"], types_arg, **kwargs)
 
         observed = await self.call_in(cid, call)
+        self.raised_and_dispatched(observed, cmd)
         expected, events = self.model.add_resource(cid, tag, cmd["vtype"], cmd["name"], cmd["types"], cmd["desc"], td_tag,
                                                    value_is_none=bool(cmd.get("none_value")))
         self.check_outcome("add", expected, observed, cmd)
@@ -685,6 +693,7 @@ class Engine:
                 ctx.add_resource_factory(factory, cmd["name"], **kwargs)
 
         observed = await self.call_in(cid, call)
+        self.raised_and_dispatched(observed, cmd)
         expected, events = self.model.add_factory(cid, fid, cmd["name"], types, cmd["desc"], cmd["is_async"])
         self.check_outcome("add-factory", expected, observed, cmd)
         if expected[0] == "exc":
